@@ -206,9 +206,13 @@ def run(ctx):
                     isinstance(s.iter.args[0], ast.Call) and \
                     norm(s.iter.args[0].func) == "classify_catalog":
                 n2 += 1
-                names = [e.value for e in s.iter.args[1].elts] \
-                    if isinstance(s.iter.args[1], (ast.List, ast.Tuple)) \
-                    else None
+                nm = s.iter.args[1]
+                if isinstance(nm, ast.Name):
+                    from .c08 import _resolve_local
+                    nm = _resolve_local(fi.node, nm)
+                names = [e.value for e in nm.elts
+                         if isinstance(e, ast.Constant)] \
+                    if isinstance(nm, (ast.List, ast.Tuple)) else None
                 ctx.check("C18-R2", fi, "sqlite tables %s" % names,
                           names == ["components", "islands", "simples"],
                           "table names must follow (components, islands, "
@@ -246,17 +250,28 @@ def run(ctx):
                   "duplicate column names", node=ci.node)
     al = prog.func("models.SimpleSource.as_list")
     ok = any(isinstance(l, ast.For) and norm(l.iter) == "self.names"
-             for l in walk_no_nested(al.node))
+             for l in walk_no_nested(al.node)) or any(
+        isinstance(l, (ast.ListComp, ast.GeneratorExp)) and
+        len(l.generators) == 1 and
+        norm(l.generators[0].iter) == "self.names" and
+        not l.generators[0].ifs and
+        isinstance(l.elt, ast.Call) and norm(l.elt.func) == "getattr" and
+        len(l.elt.args) >= 2 and
+        norm(l.elt.args[1]) == norm(l.generators[0].target)
+        for l in ast.walk(al.node))
     ctx.check("C18-R3", al, "as_list iterates self.names", ok,
               "as_list must follow the names order", node=al.node)
     # ---------------------------------------------------------------- R4
     ctx.rule("C18-R4", "reader and writer iterate the same `names` list")
     wr = prog.func("catalogs.write_catalog.writer")
     rd = prog.func("catalogs.table_to_source_list")
-    okw = any(isinstance(l, ast.For) and norm(l.iter).endswith(".names")
-              for l in walk_no_nested(wr.node))
-    okr = any(isinstance(l, ast.For) and norm(l.iter).endswith(".names")
-              for l in walk_no_nested(rd.node))
+    wloops = [l for l in walk_no_nested(wr.node) if isinstance(l, ast.For)
+              and norm(l.iter).endswith(".names")]
+    rloops = [l for l in walk_no_nested(rd.node) if isinstance(l, ast.For)
+              and norm(l.iter).endswith(".names")]
+    okw, okr = bool(wloops), bool(rloops)
+    wvar = {norm(l.target) for l in wloops}
+    rvar = {norm(l.target) for l in rloops}
     ctx.check("C18-R4", wr, "writer iterates <source>.names", okw,
               "writer does not iterate the class's names", node=wr.node)
     ctx.check("C18-R4", rd, "reader iterates <type>.names", okr,
@@ -264,13 +279,13 @@ def run(ctx):
     getv = [c for c in walk_no_nested(wr.node) if isinstance(c, ast.Call)
             and norm(c.func) == "getattr" and len(c.args) >= 2]
     ctx.check("C18-R4", wr, "writer reads getattr(source, name)",
-              bool(getv) and all(norm(c.args[1]) == "name" for c in getv),
+              bool(getv) and all(norm(c.args[1]) in wvar for c in getv),
               "column values must come from the attribute with the column's "
               "own name", node=getv[0] if getv else wr.node)
     setv = [c for c in walk_no_nested(rd.node) if isinstance(c, ast.Call)
             and norm(c.func) == "setattr" and len(c.args) == 3]
     ctx.check("C18-R4", rd, "reader sets setattr(src, param, row[param])",
-              bool(setv) and all(norm(c.args[1]) == "param" for c in setv),
+              bool(setv) and all(norm(c.args[1]) in rvar for c in setv),
               "values must be stored under the column's own name",
               node=setv[0] if setv else rd.node)
     # ---------------------------------------------------------------- R5
@@ -324,17 +339,14 @@ def run(ctx):
         raise AnalysisError("C18-R5: FITSTableType helper not found")
     want_codes = {"int": ("J", "K"), "float": ("E", "D"), "bool": ("L",)}
     seen_types = set()
-    for iff in ast.walk(tt.node):
-        if not (isinstance(iff, ast.If) and isinstance(iff.test, ast.Call)
-                and norm(iff.test.func) == "isinstance"):
-            continue
-        tcls = norm(iff.test.args[1])
-        kind = "bool" if tcls == "bool" else "int" if "int" in tcls else \
-            "float" if "float" in tcls else None
+    chain5, _default5 = _dispatch_chain(prog, tt)
+    for classes5, val5, iff in chain5:
+        kind = "bool" if classes5 == {"bool"} else \
+            "int" if any("int" in c for c in classes5) else \
+            "float" if any("float" in c for c in classes5) else None
         if kind is None:
             continue
-        lits = [x.value.value for x in iff.body if isinstance(x, ast.Assign)
-                and isinstance(x.value, ast.Constant)]
+        lits = [val5] if val5 is not None else []
         seen_types.add(kind)
         ctx.check("C18-R5", tt, "FITS format for %s values: %s" %
                   (kind, lits), bool(lits) and all(
@@ -464,13 +476,12 @@ def r7(ctx, prog):
     ctx.floor("C18-R7", n, 14, "scalar types dispatched")
 
 
-def _dispatch(ctx, prog, outer, inner, table):
-    wd = prog.func(outer)
-    st = prog.functions.get(wd.qualname + "." + inner)
-    if st is None:
-        raise AnalysisError("C18-R7: %s.%s not found" % (outer, inner))
+def _dispatch_chain(prog, st):
+    """The isinstance dispatch of helper st as [(accepted class names,
+    value of the branch, node)] plus the value of the fall-through case.
+    Understands an if/elif chain as well as a sequence of `if ...: return`
+    statements followed by the default."""
     mod = prog.modules[st.module]
-    chain = []          # [(set of accepted class names, type code, node)]
 
     def classes(e):
         elts = e.elts if isinstance(e, ast.Tuple) else [e]
@@ -484,24 +495,56 @@ def _dispatch(ctx, prog, outer, inner, table):
                                     "test not resolved" % norm(x))
             out.add(d)
         return out
-    top = [s_ for s_ in walk_no_nested(st.node) if isinstance(s_, ast.If) and
-           isinstance(s_.test, ast.Call) and
-           norm(s_.test.func) == "isinstance"]
-    if not top:
+
+    def is_disp(x):
+        return isinstance(x, ast.If) and isinstance(x.test, ast.Call) and \
+            norm(x.test.func) == "isinstance" and len(x.test.args) == 2
+
+    def find(stmts):
+        for k, x in enumerate(stmts):
+            if is_disp(x):
+                return stmts, k
+            for sub in ("body", "orelse"):
+                if isinstance(x, (ast.For, ast.While, ast.With, ast.Try)) \
+                        and getattr(x, sub, None):
+                    r = find(getattr(x, sub))
+                    if r:
+                        return r
+        return None
+    loc = find(st.node.body)
+    if loc is None:
         raise AnalysisError("C18-R7: isinstance chain not found in %s" %
-                            inner)
-    node = top[0]
+                            st.short)
+    stmts, k = loc
+    chain, default = [], None
+    node = stmts[k]
     while True:
-        t = node.test
-        if not (isinstance(t, ast.Call) and norm(t.func) == "isinstance"
-                and len(t.args) == 2):
-            raise AnalysisError("C18-R7: branch test %s" % norm(t))
-        chain.append((classes(t.args[1]), _branch_value(node.body), node))
-        if len(node.orelse) == 1 and isinstance(node.orelse[0], ast.If):
+        chain.append((classes(node.test.args[1]), _branch_value(node.body),
+                      node))
+        if len(node.orelse) == 1 and is_disp(node.orelse[0]):
             node = node.orelse[0]
             continue
-        default = _branch_value(node.orelse)
+        if node.orelse:
+            default = _branch_value(node.orelse)
+            break
+        # no else: the dispatch continues with the following statements
+        k = stmts.index(node) if node in stmts else k
+        rest = stmts[k + 1:]
+        if rest and is_disp(rest[0]):
+            node = rest[0]
+            k += 1
+            continue
+        default = _branch_value(rest)
         break
+    return chain, default
+
+
+def _dispatch(ctx, prog, outer, inner, table):
+    wd = prog.func(outer)
+    st = prog.functions.get(wd.qualname + "." + inner)
+    if st is None:
+        raise AnalysisError("C18-R7: %s.%s not found" % (outer, inner))
+    chain, default = _dispatch_chain(prog, st)
 
     def aff(code):
         if code is None:
